@@ -543,7 +543,7 @@ class Ref:
         if extra_D:
             D = overlay(D, extra_D)
         if extra_P:
-            P = overlay(P, extra_P)
+            P = overlay(extra_P, P)  # options already pre-set on the dataset win
         o1 = overlay(D, o) if D else o
         o2 = overlay(o1, P) if P else o1
 
@@ -639,7 +639,7 @@ class Ref:
             cur = cur[1]
         for c in reversed(chain):  # innermost (applied first) to outermost
             if c[0] == "dswo":
-                P = overlay(P, c[2])
+                P = overlay(c[2], P)  # nested pre-setting: the inner (earlier) one wins
             else:
                 D = overlay(D, c[2])
         return self._dataset(cur, o, extra_P=P, extra_D=D)
